@@ -22,7 +22,7 @@ func TestC01(t *testing.T) {
 	requireAntecedents(run, "C01a/create", "C01b/duplicates", "C01c/ineligible")
 	mons := []func(*w.MonCtx){w.MonC01}
 	churn := func() *w.Alpha {
-		return &w.Alpha{PodDev: []string{"fail", "unknown"}, AddNodes: []string{"n9"}, DelNodes: true, Taints: []string{"NoSchedule", "NoExecute"}}
+		return &w.Alpha{PodDev: []string{"fail", "unknown"}, AddNodes: []string{"n9"}, DelNodes: true, Taints: []string{"NoSchedule", "NoExecute", "cordon"}}
 	}
 	b := 1
 	n2, n3 := []string{"n1", "n2"}, []string{"n1", "n2", "n3"}
